@@ -47,7 +47,12 @@ RULE = ('cells: diagonal, rotated/left-handed mutually orthogonal, LAMMPS-tricli
         'hold the same Box), 8-16 steps mixing in-place changes (Box.vects=, Box.origin=, Box.set in its vects / avect / '
         'lengths / hi-lo forms, System.box_set with and without scale, System.pbc=, System.pbc[k]=, atoms.pos[i]=, '
         'atoms.pos[:]=, atoms.pos=, atoms_prop) with queries (atomman.dvect/dmag with the Box object, System.dvect/dmag, '
-        'displacement, state read-back). '
+        'displacement, state read-back, a moved copy of a System on the same Box followed by displacement). '
+        'Round 3: cell kind `sheared` (non-reduced: tilt factors 0.75..2.5 of the edge, axes permuted / mirrored); '
+        'decimal supercells (a0 = 4.05, 3.52, ... times 1..13; diagonal, tilted, hexagonal, rotated, sheared; scales '
+        '1e-12..1e12) with pairs that are periodic copies of each other up to 0 / 1 ulp / 1e-15..1e-3 L; displacement '
+        'cases whose atoms move 0.47..1.0 of one of the shortest lattice combinations (all moves below half the shortest '
+        'edge); boolean-mask selectors; input forms rowstrided / colwindow / reversed. '
         'distinct = distinct canonical case; non-trivial = at least one periodic direction and a non-zero separation')
 ASSUMPTIONS = [
     'IEEE double arithmetic of the compiled loop is exact on multiples of 2^k/64 below 2^k * 2^12, -40 <= k <= 40 '
@@ -60,6 +65,10 @@ ASSUMPTIONS = [
     'System.box_set(scale=True) recomputes the positions in floating point: the read-back is compared with the '
     'exact value within 2^-44 * (|p-o| |recip| |vects\'| + |o\'| + |p\'|) and the positions are then re-set on the grid',
     'numpy `** 0.5` on a float64 array returns sqrt within 2 ulp',
+    'dvect_c and dmag2_c evaluate the same candidate expression (pos_1 - pos_0 + x a + y b + z c, then x*x + y*y + z*z) in '
+    'the same order, as the model does (`dmag2_eq_normsq_dvect`): the distance returned is the correctly rounded-to-a-few-ulp '
+    'length of the very row dvect returns (8 * 2^-53 on the square), compared in the correspondence for every pair',
+    'a boolean mask of the right length selects the rows of its True entries (numpy): sent to the model as that index list',
     'numpy broadcasting / fancy indexing of atoms.pos is as documented (modelled by `select`/`broadcast`)',
 ]
 TRUSTED = ['numpy indexing, broadcast_to and sqrt in the wrappers', 'exact integer oracle in harness/props/c02.py']
